@@ -354,6 +354,43 @@ Proof.
 Qed.
 
 (* ------------------------------------------------------------------ small case analyses *)
+(* ---------- spans of sheets ---------- *)
+Lemma str_eqb_refl : forall a, str_eqb a a = true.
+Proof. induction a as [|x a IH]; [reflexivity|]. cbn [str_eqb]. rewrite N.eqb_refl, IH. reflexivity. Qed.
+
+Lemma str_eqb_length : forall a b, str_eqb a b = true -> length a = length b.
+Proof.
+  induction a as [|x a IH]; intros [|y b] H; try discriminate; [reflexivity|].
+  cbn [str_eqb] in H. apply andb_prop in H. destruct H as [_ H]. cbn [length]. f_equal. apply IH. exact H.
+Qed.
+
+Lemma double_apos_length : forall s, (length s <= length (double_apos s))%nat.
+Proof.
+  induction s as [|c s IH]; [reflexivity|]. unfold double_apos in *. cbn [flat_map].
+  rewrite app_length. destruct (c =? ch_apos); cbn [length]; lia.
+Qed.
+
+Lemma quote_bare : forall s, str_eqb (quote_sheet_name s) s = bare_sheet s.
+Proof.
+  intros s. rewrite quote_sheet_name_spec. unfold sheet_text. destruct (bare_sheet s).
+  - apply str_eqb_refl.
+  - destruct (str_eqb ([ch_apos] ++ double_apos s ++ [ch_apos]) s) eqn:E; [|reflexivity].
+    apply str_eqb_length in E. rewrite !app_length in E. cbn [length] in E.
+    pose proof (double_apos_length s). lia.
+Qed.
+
+Lemma quote_sheet_span_spec : forall a b, quote_sheet_span a b = span_text a b.
+Proof. intros a b. unfold quote_sheet_span, span_text. rewrite !quote_bare. reflexivity. Qed.
+
+Lemma sheet_name_xls_spec : forall env ix, sheet_name_xls env ix = spec_sheet_xls env ix.
+Proof.
+  intros env ix. unfold sheet_name_xls, spec_sheet_xls.
+  destruct (nthN (xe_xtis env) ix) as [[[sup first] last]|]; [|reflexivity].
+  destruct (sheet_at (xe_sheets env) first) as [a|]; [|reflexivity].
+  destruct (sheet_at (xe_sheets env) last) as [b|]; [|apply quote_sheet_name_spec].
+  destruct (first =? last); cbn [negb]; [apply quote_sheet_name_spec|apply quote_sheet_span_spec].
+Qed.
+
 Lemma spec_err_berr : forall code t, spec_err code = Some t -> berr_text code = Ok t.
 Proof.
   intros code t. unfold spec_err, berr_text.
@@ -457,7 +494,7 @@ Proof.
   intros k ix a rest st buf Hix H. destruct (wf_cref_bounds _ _ H) as (Hr & Hc & Hf).
   destruct k; cbn [cls_ptg]; unfold xls_step; cbn [fst snd le app u16_at skipn obind];
     rewrite !le2_eq by assumption; unfold cfield; pcr;
-    cbn [obind drop]; rewrite <- !app_assoc; reflexivity.
+    cbn [obind drop]; rewrite sheet_name_xls_spec, <- !app_assoc; reflexivity.
 Qed.
 
 Lemma xls_step_area3d : forall k ix a b rest st buf,
@@ -471,7 +508,7 @@ Proof.
   destruct (wf_cref_bounds _ _ Ha) as (Hr & Hc & Hf). destruct (wf_cref_bounds _ _ Hb) as (Hr' & Hc' & Hf').
   destruct k; cbn [cls_ptg]; unfold xls_step; cbn [fst snd le app u16_at skipn obind];
     rewrite !le2_eq by assumption; unfold cfield; pcr; cbn [obind]; pcr;
-    cbn [obind drop]; rewrite <- !app_assoc; reflexivity.
+    cbn [obind drop]; rewrite sheet_name_xls_spec, <- !app_assoc; reflexivity.
 Qed.
 
 Lemma xls_step_name : forall k idx rest st buf,
@@ -668,6 +705,57 @@ Proof.
     cbn [obind]; pcr; cbn [obind drop]; rewrite !render_cref_translate, <- !app_assoc; reflexivity.
 Qed.
 
+(* ---------- references that no longer exist ---------- *)
+Lemma drop_len : forall (j rest : list N) n, length j = n -> drop n (j ++ rest) = Ok rest.
+Proof. intros j rest n <-. apply drop_app. Qed.
+
+Lemma xls_step_referr : forall k j rest st buf, length j = 4%nat ->
+  xls_step show_f64 env (cls_ptg 0x2A 0x4A 0x6A k) (j ++ rest) (st, buf)
+  = Ok (rest, (length buf :: st, buf ++ lit "#REF!")).
+Proof.
+  intros k j rest st buf H. destruct k; cbn [cls_ptg]; unfold xls_step, arm_push_text;
+    rewrite (drop_len j rest H); reflexivity.
+Qed.
+Lemma xls_step_areaerr : forall k j rest st buf, length j = 8%nat ->
+  xls_step show_f64 env (cls_ptg 0x2B 0x4B 0x6B k) (j ++ rest) (st, buf)
+  = Ok (rest, (length buf :: st, buf ++ lit "#REF!")).
+Proof.
+  intros k j rest st buf H. destruct k; cbn [cls_ptg]; unfold xls_step, arm_push_text;
+    rewrite (drop_len j rest H); reflexivity.
+Qed.
+Lemma xls_step_referr3d : forall k ix j rest st buf, ix < 65536 -> length j = 4%nat ->
+  xls_step show_f64 env (cls_ptg 0x3C 0x5C 0x7C k) (le 2 ix ++ j ++ rest) (st, buf)
+  = Ok (rest, (length buf :: st, buf ++ spec_sheet_xls env ix ++ [ch_bang] ++ lit "#REF!")).
+Proof.
+  intros k ix j rest st buf Hix H.
+  assert (D : drop 6 (le 2 ix ++ j ++ rest) = Ok rest).
+  { rewrite app_assoc. apply drop_len. rewrite app_length, le_length. lia. }
+  destruct k; cbn [cls_ptg]; unfold xls_step; cbn [fst snd];
+    (replace (u16_at (le 2 ix ++ j ++ rest) 0) with (@Ok N ix)
+       by (cbn [le app u16_at skipn]; rewrite le2_eq by exact Hix; reflexivity));
+    cbn [obind]; rewrite D; cbn [obind]; rewrite sheet_name_xls_spec; reflexivity.
+Qed.
+Lemma xls_step_areaerr3d : forall k ix j rest st buf, ix < 65536 -> length j = 8%nat ->
+  xls_step show_f64 env (cls_ptg 0x3D 0x5D 0x7D k) (le 2 ix ++ j ++ rest) (st, buf)
+  = Ok (rest, (length buf :: st, buf ++ spec_sheet_xls env ix ++ [ch_bang] ++ lit "#REF!")).
+Proof.
+  intros k ix j rest st buf Hix H.
+  assert (D : drop 10 (le 2 ix ++ j ++ rest) = Ok rest).
+  { rewrite app_assoc. apply drop_len. rewrite app_length, le_length. lia. }
+  destruct k; cbn [cls_ptg]; unfold xls_step; cbn [fst snd];
+    (replace (u16_at (le 2 ix ++ j ++ rest) 0) with (@Ok N ix)
+       by (cbn [le app u16_at skipn]; rewrite le2_eq by exact Hix; reflexivity));
+    cbn [obind]; rewrite D; cbn [obind]; rewrite sheet_name_xls_spec; reflexivity.
+Qed.
+
+(* ---------- PtgMemArea / PtgMemErr / PtgMemNoMem / PtgMemFunc: skipped ---------- *)
+Lemma xls_step_mem : forall k m w cce rest s,
+  xls_step show_f64 env (mem_ptg m k) (mem_head m w ++ le 2 cce ++ rest) s = Ok (rest, s).
+Proof.
+  intros k m w cce rest s. destruct m, k; cbn [mem_ptg cls_ptg mem_head le app]; unfold xls_step;
+    cbn [drop obind]; reflexivity.
+Qed.
+
 End XlsTokens.
 
 (* ------------------------------------------------------------------ induction principle for the nested AST *)
@@ -695,6 +783,11 @@ Hypothesis HPost : forall e w a, P a -> P (EAttrPost e w a).
 Hypothesis HChoose : forall offs a, P a -> P (EAttrChoose offs a).
 Hypothesis HRefN : forall k a, P (ERefN k a).
 Hypothesis HAreaN : forall k a b, P (EAreaN k a b).
+Hypothesis HMem : forall k m w a, P a -> P (EMem k m w a).
+Hypothesis HRefErr : forall k j, P (ERefErr k j).
+Hypothesis HAreaErr : forall k j, P (EAreaErr k j).
+Hypothesis HRefErr3d : forall k ix j, P (ERefErr3d k ix j).
+Hypothesis HAreaErr3d : forall k ix j, P (EAreaErr3d k ix j).
 
 Fixpoint expr_ind' (e : expr) : P e :=
   let fix go (l : list expr) : Forall P l :=
@@ -725,6 +818,11 @@ Fixpoint expr_ind' (e : expr) : P e :=
   | EAttrChoose offs a => HChoose offs (expr_ind' a)
   | ERefN k a => HRefN k a
   | EAreaN k a b => HAreaN k a b
+  | EMem k m w a => HMem k m w (expr_ind' a)
+  | ERefErr k j => HRefErr k j
+  | EAreaErr k j => HAreaErr k j
+  | ERefErr3d k ix j => HRefErr3d k ix j
+  | EAreaErr3d k ix j => HAreaErr3d k ix j
   end.
 End ExprInd.
 
@@ -939,6 +1037,34 @@ Proof.
     unfold encode_xls. cbn [ntok Nat.add encode app]. rewrite <- !app_assoc.
     rewrite xls_run_S by len_tac; rewrite (@xls_step_arean show_f64 env k a b base) by assumption.
     unfold render_xls. cbn [render obind fst snd]. rewrite Eb. reflexivity.
+  - (* EMem: the token is skipped, the expression follows *)
+    apply andb_prop in Hwf. destruct Hwf as [Hwf Ha]. apply andb_prop in Hwf. destruct Hwf as [Hw Hc].
+    specialize (IHe Ha). unfold encode_xls. cbn [ntok encode]. fold encode_xls.
+    cbn [app]. rewrite <- !app_assoc. cbn [Nat.add].
+    rewrite xls_run_S by (destruct m, k; cbn [mem_ptg cls_ptg mem_head xls_expected le app length];
+                          rewrite ?app_length; cbn [length]; lia).
+    rewrite xls_step_mem. cbn [obind fst snd]. rewrite IHe.
+    unfold render_xls. cbn [render]. reflexivity.
+  - (* ERefErr *)
+    apply Nat.eqb_eq in Hwf. unfold encode_xls. cbn [ntok Nat.add encode app].
+    rewrite xls_run_S by (destruct k; cbn [cls_ptg xls_expected]; rewrite app_length; lia).
+    rewrite xls_step_referr by exact Hwf. reflexivity.
+  - (* EAreaErr *)
+    apply Nat.eqb_eq in Hwf. unfold encode_xls. cbn [ntok Nat.add encode app].
+    rewrite xls_run_S by (destruct k; cbn [cls_ptg xls_expected]; rewrite app_length; lia).
+    rewrite xls_step_areaerr by exact Hwf. reflexivity.
+  - (* ERefErr3d *)
+    apply andb_prop in Hwf. destruct Hwf as [Hwf Hj]. apply andb_prop in Hwf. destruct Hwf as [Hix _].
+    apply Nat.eqb_eq in Hj. apply N.ltb_lt in Hix.
+    unfold encode_xls. cbn [ntok Nat.add encode app]. rewrite <- !app_assoc.
+    rewrite xls_run_S by (destruct k; cbn [cls_ptg xls_expected]; rewrite !app_length, le_length; lia).
+    rewrite xls_step_referr3d by assumption. reflexivity.
+  - (* EAreaErr3d *)
+    apply andb_prop in Hwf. destruct Hwf as [Hwf Hj]. apply andb_prop in Hwf. destruct Hwf as [Hix _].
+    apply Nat.eqb_eq in Hj. apply N.ltb_lt in Hix.
+    unfold encode_xls. cbn [ntok Nat.add encode app]. rewrite <- !app_assoc.
+    rewrite xls_run_S by (destruct k; cbn [cls_ptg xls_expected]; rewrite !app_length, le_length; lia).
+    rewrite xls_step_areaerr3d by assumption. reflexivity.
 Qed.
 
 End XlsMain.
@@ -1090,6 +1216,70 @@ Proof.
   intros ix H. unfold sheet_name_xlsb, spec_sheet_xlsb.
   destruct (@nthN_some _ (be_sheets env) ix H) as [sh Hsh]. rewrite Hsh. reflexivity.
 Qed.
+
+(* ---------- references that no longer exist ---------- *)
+Lemma xlsb_step_referr : forall k j rest st buf, length j = 6%nat ->
+  step (cls_ptg 0x2A 0x4A 0x6A k) (j ++ rest) (st, buf)
+  = Ok (rest, (length buf :: st, buf ++ lit "#REF!")).
+Proof.
+  intros k j rest st buf H. destruct k; cbn [cls_ptg]; unfold xlsb_step, arm_push_text;
+    rewrite (drop_len j rest H); reflexivity.
+Qed.
+Lemma xlsb_step_areaerr : forall k j rest st buf, length j = 12%nat ->
+  step (cls_ptg 0x2B 0x4B 0x6B k) (j ++ rest) (st, buf)
+  = Ok (rest, (length buf :: st, buf ++ lit "#REF!")).
+Proof.
+  intros k j rest st buf H. destruct k; cbn [cls_ptg]; unfold xlsb_step, arm_push_text;
+    rewrite (drop_len j rest H); reflexivity.
+Qed.
+Lemma xlsb_step_referr3d : forall k ix j rest st buf, ix < 65536 ->
+  ix < N.of_nat (length (be_sheets env)) -> length j = 6%nat ->
+  step (cls_ptg 0x3C 0x5C 0x7C k) (le 2 ix ++ j ++ rest) (st, buf)
+  = Ok (rest, (length buf :: st, buf ++ spec_sheet_xlsb env ix ++ [ch_bang] ++ lit "#REF!")).
+Proof.
+  intros k ix j rest st buf Hix Hsh H.
+  assert (D : drop 8 (le 2 ix ++ j ++ rest) = Ok rest).
+  { rewrite app_assoc. apply drop_len. rewrite app_length, le_length. lia. }
+  destruct k; cbn [cls_ptg]; unfold xlsb_step; cbn [fst snd];
+    (replace (u16_at (le 2 ix ++ j ++ rest) 0) with (@Ok N ix)
+       by (cbn [le app u16_at skipn]; rewrite le2_eq by exact Hix; reflexivity));
+    cbn [obind]; rewrite sheet_name_xlsb_ok by exact Hsh; cbn [obind]; rewrite D; reflexivity.
+Qed.
+Lemma xlsb_step_areaerr3d : forall k ix j rest st buf, ix < 65536 ->
+  ix < N.of_nat (length (be_sheets env)) -> length j = 12%nat ->
+  step (cls_ptg 0x3D 0x5D 0x7D k) (le 2 ix ++ j ++ rest) (st, buf)
+  = Ok (rest, (length buf :: st, buf ++ spec_sheet_xlsb env ix ++ [ch_bang] ++ lit "#REF!")).
+Proof.
+  intros k ix j rest st buf Hix Hsh H.
+  assert (D : drop 14 (le 2 ix ++ j ++ rest) = Ok rest).
+  { rewrite app_assoc. apply drop_len. rewrite app_length, le_length. lia. }
+  destruct k; cbn [cls_ptg]; unfold xlsb_step; cbn [fst snd];
+    (replace (u16_at (le 2 ix ++ j ++ rest) 0) with (@Ok N ix)
+       by (cbn [le app u16_at skipn]; rewrite le2_eq by exact Hix; reflexivity));
+    cbn [obind]; rewrite sheet_name_xlsb_ok by exact Hsh; cbn [obind]; rewrite D; reflexivity.
+Qed.
+
+(* ---------- PtgMemArea / PtgMemErr / PtgMemNoMem: skipped; PtgMemFunc: the nested call ---------- *)
+Lemma xlsb_step_mem_skip : forall k m w cce rest s, m <> MFunc ->
+  step (mem_ptg m k) (mem_head m w ++ le 2 cce ++ rest) s = Ok (rest, s).
+Proof.
+  intros k m w cce rest s Hm. destruct m; try congruence; destruct k; cbn [mem_ptg cls_ptg mem_head le app];
+    unfold xlsb_step; cbn [drop obind]; reflexivity.
+Qed.
+
+Lemma xlsb_step_memfunc : forall k inner rest s text,
+  N.of_nat (length inner) < 65536 -> sub inner = Ok text ->
+  step (mem_ptg MFunc k) (le 2 (N.of_nat (length inner)) ++ inner ++ rest) s
+  = Ok (rest, (length (snd s) :: fst s, snd s ++ text)).
+Proof.
+  intros k inner rest [st buf] text Hlen Hsub.
+  destruct k; cbn [mem_ptg cls_ptg]; unfold xlsb_step; cbn [fst snd le app u16_at skipn obind drop];
+    rewrite !le2_eq by exact Hlen; rewrite Nat2N.id;
+    (destruct (length (inner ++ rest) <? length inner)%nat eqn:E;
+       [apply Nat.ltb_lt in E; rewrite app_length in E; lia|]);
+    rewrite take_app; cbn [obind]; rewrite Hsub; cbn [obind]; rewrite drop_app; reflexivity.
+Qed.
+
 
 Lemma xlsb_step_ref3d : forall k ix a rest st buf,
   ix < 65536 -> ix < N.of_nat (length (be_sheets env)) -> wf_cref 4294967296 a = true ->
@@ -1248,77 +1438,88 @@ End XlsbTokens.
 Section XlsbMain.
 Variable show_f64 : N -> list N.
 Variable env : xlsb_env.
-Variable d : nat.                        (* PtgMemFunc nesting depth: the AST has no PtgMemFunc *)
 
-Notation run f := (xlsb_run show_f64 env f d).
 Notation rend := (render_xlsb show_f64 env).
 
+(* [d]: the PtgMemFunc nesting depth of the call; [need e <= f]: the nested calls made at the PtgMemFunc
+   tokens of e run on the fuel that is left for the rest of the loop *)
 Definition good_xlsb (e : expr) : Prop :=
-  forall f rest st buf,
-    run (ntok e + f)%nat (encode_xlsb e ++ rest) (st, buf) = run f rest (length buf :: st, buf ++ rend e).
+  forall d f rest st buf, (need e <= f)%nat -> (d + mdepth e <= 64)%nat ->
+    xlsb_run show_f64 env (ntokb e + f)%nat d (encode_xlsb e ++ rest) (st, buf)
+    = xlsb_run show_f64 env f d rest (length buf :: st, buf ++ rend e).
 
-Lemma good_list_xlsb : forall args, Forall good_xlsb args -> forall f rest st buf,
-  run (fold_right (fun a acc => ntok a + acc) 0 args + f)%nat (flat_map encode_xlsb args ++ rest) (st, buf)
-  = run f rest (rev (offsets (length buf) (map rend args)) ++ st, buf ++ concat (map rend args)).
+Lemma good_list_xlsb : forall args, Forall good_xlsb args -> forall d f rest st buf,
+  (fold_right (fun a acc => Nat.max (need a) acc) 0 args <= f)%nat ->
+  (d + fold_right (fun a acc => Nat.max (mdepth a) acc) 0 args <= 64)%nat ->
+  xlsb_run show_f64 env (fold_right (fun a acc => ntokb a + acc) 0 args + f)%nat d (flat_map encode_xlsb args ++ rest) (st, buf)
+  = xlsb_run show_f64 env f d rest (rev (offsets (length buf) (map rend args)) ++ st, buf ++ concat (map rend args)).
 Proof.
-  induction args as [|a args IH]; intros HF f rest st buf.
+  induction args as [|a args IH]; intros HF d f rest st buf Hf Hd.
   - cbn [fold_right flat_map map offsets rev concat app Nat.add]. rewrite app_nil_r. reflexivity.
-  - inversion HF as [|? ? Ha Hargs]; subst.
+  - inversion HF as [|? ? Ha Hargs]; subst. cbn [fold_right] in Hf, Hd.
     cbn [fold_right flat_map map offsets rev concat].
-    rewrite <- app_assoc, <- Nat.add_assoc. rewrite Ha. rewrite IH by exact Hargs.
+    rewrite <- app_assoc, <- Nat.add_assoc. rewrite Ha by lia. rewrite IH by (first [exact Hargs | lia]).
     rewrite app_length, <- !app_assoc. reflexivity.
 Qed.
 
-Theorem rpn_step_xlsb : forall e, wf_xlsb env e = true -> good_xlsb e.
+(* an encoding is never empty *)
+Lemma encode_xlsb_cons : forall e, exists b t, encode_xlsb e = b :: t.
 Proof.
-  unfold wf_xlsb.
-  induction e using expr_ind'; intros Hwf; unfold good_xlsb; intros f rest st buf;
-    cbn [wf] in Hwf.
+  intros e. pose proof (ntok_le_length 4 enc_str_xlsb e) as H. fold encode_xlsb in H.
+  assert (1 <= ntok e)%nat by (destruct e; cbn [ntok]; lia).
+  destruct (encode_xlsb e) as [|b t]; [cbn [length] in H; lia|eauto].
+Qed.
+
+Theorem rpn_step_xlsb : forall e, wf_xlsb_core env e = true -> good_xlsb e.
+Proof.
+  unfold wf_xlsb_core.
+  induction e using expr_ind'; intros Hwf; unfold good_xlsb; intros d f rest st buf Hf Hd;
+    cbn [wf] in Hwf; cbn [need mdepth] in Hf, Hd.
   - (* ERef *)
-    unfold encode_xlsb. cbn [ntok Nat.add encode app]. rewrite <- app_assoc.
+    unfold encode_xlsb. cbn [ntokb Nat.add encode app]. rewrite <- app_assoc.
     rewrite xlsb_run_S by len_tac; rewrite xlsb_step_ref by exact Hwf. reflexivity.
   - (* EArea *)
     apply andb_prop in Hwf. destruct Hwf as [Ha Hb].
-    unfold encode_xlsb. cbn [ntok Nat.add encode app]. rewrite <- !app_assoc.
+    unfold encode_xlsb. cbn [ntokb Nat.add encode app]. rewrite <- !app_assoc.
     rewrite xlsb_run_S by len_tac; rewrite xlsb_step_area by assumption. reflexivity.
   - (* ERef3d *)
     apply andb_prop in Hwf. destruct Hwf as [Hwf Ha]. apply andb_prop in Hwf. destruct Hwf as [Hix Hsh].
     apply N.ltb_lt in Hix, Hsh.
-    unfold encode_xlsb. cbn [ntok Nat.add encode app]. rewrite <- !app_assoc.
+    unfold encode_xlsb. cbn [ntokb Nat.add encode app]. rewrite <- !app_assoc.
     rewrite xlsb_run_S by len_tac; rewrite xlsb_step_ref3d by assumption. reflexivity.
   - (* EArea3d *)
     apply andb_prop in Hwf. destruct Hwf as [Hwf Hb]. apply andb_prop in Hwf. destruct Hwf as [Hwf Ha].
     apply andb_prop in Hwf. destruct Hwf as [Hix Hsh]. apply N.ltb_lt in Hix, Hsh.
-    unfold encode_xlsb. cbn [ntok Nat.add encode app]. rewrite <- !app_assoc.
+    unfold encode_xlsb. cbn [ntokb Nat.add encode app]. rewrite <- !app_assoc.
     rewrite xlsb_run_S by len_tac; rewrite xlsb_step_area3d by assumption. reflexivity.
   - (* EName *)
     apply andb_prop in Hwf. destruct Hwf as [Hwf H3]. apply andb_prop in Hwf. destruct Hwf as [H1 H2].
     apply N.leb_le in H1, H2. apply N.ltb_lt in H3.
-    unfold encode_xlsb. cbn [ntok Nat.add encode app].
+    unfold encode_xlsb. cbn [ntokb Nat.add encode app].
     rewrite xlsb_run_S by len_tac; rewrite xlsb_step_name by assumption. reflexivity.
   - (* EInt *)
-    apply N.ltb_lt in Hwf. unfold encode_xlsb. cbn [ntok Nat.add encode app].
+    apply N.ltb_lt in Hwf. unfold encode_xlsb. cbn [ntokb Nat.add encode app].
     rewrite xlsb_run_S by len_tac; rewrite xlsb_step_int by assumption. reflexivity.
   - (* ENum *)
-    apply N.ltb_lt in Hwf. unfold encode_xlsb. cbn [ntok Nat.add encode app].
+    apply N.ltb_lt in Hwf. unfold encode_xlsb. cbn [ntokb Nat.add encode app].
     rewrite xlsb_run_S by len_tac; rewrite xlsb_step_num by assumption. reflexivity.
   - (* EStr *)
-    unfold encode_xlsb. cbn [ntok Nat.add encode app].
+    unfold encode_xlsb. cbn [ntokb Nat.add encode app].
     rewrite xlsb_run_S by len_tac; rewrite xlsb_step_str by assumption. reflexivity.
   - (* EBool *)
-    unfold encode_xlsb. cbn [ntok Nat.add encode app]. rewrite xlsb_run_S by len_tac; rewrite xlsb_step_bool.
+    unfold encode_xlsb. cbn [ntokb Nat.add encode app]. rewrite xlsb_run_S by len_tac; rewrite xlsb_step_bool.
     destruct b; reflexivity.
   - (* EErr *)
     destruct (spec_err c) as [t|] eqn:Ht; [|discriminate].
-    unfold encode_xlsb. cbn [ntok Nat.add encode app]. rewrite xlsb_run_S by len_tac; rewrite (@xlsb_step_err show_f64 env _ c t rest st buf Ht).
+    unfold encode_xlsb. cbn [ntokb Nat.add encode app]. rewrite xlsb_run_S by len_tac; rewrite (@xlsb_step_err show_f64 env _ c t rest st buf Ht).
     unfold render_xlsb. cbn [render]. rewrite Ht. reflexivity.
   - (* EMissArg *)
-    unfold encode_xlsb. cbn [ntok Nat.add encode app]. rewrite xlsb_run_S by len_tac.
+    unfold encode_xlsb. cbn [ntokb Nat.add encode app]. rewrite xlsb_run_S by len_tac.
     unfold render_xlsb. cbn [render]. rewrite app_nil_r. reflexivity.
   - (* EUn *)
-    specialize (IHe Hwf). unfold encode_xlsb. cbn [ntok encode]. fold encode_xlsb.
-    rewrite <- app_assoc. replace (S (ntok e) + f)%nat with (ntok e + S f)%nat by lia.
-    rewrite IHe. cbn [app]. rewrite xlsb_run_S by len_tac.
+    specialize (IHe Hwf). unfold encode_xlsb. cbn [ntokb encode]. fold encode_xlsb.
+    rewrite <- app_assoc. replace (S (ntokb e) + f)%nat with (ntokb e + S f)%nat by lia.
+    rewrite IHe by lia. cbn [app]. rewrite xlsb_run_S by len_tac.
     destruct op; cbn [unop_ptg]; unfold xlsb_step; cbn [fst snd].
     + unfold arm_insert. cbn [fst snd]. rewrite insert_at_app. reflexivity.
     + unfold arm_insert. cbn [fst snd]. rewrite insert_at_app. reflexivity.
@@ -1326,15 +1527,15 @@ Proof.
   - (* EBin *)
     apply andb_prop in Hwf. destruct Hwf as [Hwf Hb]. apply andb_prop in Hwf. destruct Hwf as [Hop Ha].
     specialize (IHe1 Ha). specialize (IHe2 Hb).
-    unfold encode_xlsb. cbn [ntok encode]. fold encode_xlsb.
-    rewrite <- !app_assoc. replace (S (ntok e1 + ntok e2) + f)%nat with (ntok e1 + (ntok e2 + S f))%nat by lia.
-    rewrite IHe1, IHe2. cbn [app]. rewrite xlsb_run_S by len_tac; rewrite xlsb_step_binop by exact Hop.
+    unfold encode_xlsb. cbn [ntokb encode]. fold encode_xlsb.
+    rewrite <- !app_assoc. replace (S (ntokb e1 + ntokb e2) + f)%nat with (ntokb e1 + (ntokb e2 + S f))%nat by lia.
+    rewrite IHe1 by lia. rewrite IHe2 by lia. cbn [app]. rewrite xlsb_run_S by len_tac; rewrite xlsb_step_binop by exact Hop.
     unfold arm_binop. cbn [fst snd]. rewrite split_off_app. cbn [obind fst snd].
     rewrite (@binop_text_spec op Hop). unfold render_xlsb. cbn [render]. rewrite <- !app_assoc. reflexivity.
   - (* EParen *)
-    specialize (IHe Hwf). unfold encode_xlsb. cbn [ntok encode]. fold encode_xlsb.
-    rewrite <- app_assoc. replace (S (ntok e) + f)%nat with (ntok e + S f)%nat by lia.
-    rewrite IHe. cbn [app]. rewrite xlsb_run_S by len_tac. unfold xlsb_step, arm_paren. cbn [fst snd].
+    specialize (IHe Hwf). unfold encode_xlsb. cbn [ntokb encode]. fold encode_xlsb.
+    rewrite <- app_assoc. replace (S (ntokb e) + f)%nat with (ntokb e + S f)%nat by lia.
+    rewrite IHe by lia. cbn [app]. rewrite xlsb_run_S by len_tac. unfold xlsb_step, arm_paren. cbn [fst snd].
     rewrite insert_at_app. cbn [obind fst snd]. unfold render_xlsb. cbn [render].
     rewrite <- app_assoc. reflexivity.
   - (* EFunc *)
@@ -1344,11 +1545,11 @@ Proof.
     apply N.eqb_eq in Hcnt. apply N.ltb_lt in Hi. subst n.
     assert (HG : Forall good_xlsb args).
     { apply forallb_Forall in Hargs. rewrite Forall_forall in *. intros a Hin. apply H; auto. }
-    unfold encode_xlsb. cbn [ntok encode]. fold encode_xlsb.
+    unfold encode_xlsb. cbn [ntokb encode]. fold encode_xlsb.
     rewrite <- !app_assoc.
-    replace (S (fold_right (fun a acc => ntok a + acc) 0 args) + f)%nat
-      with (fold_right (fun a acc => ntok a + acc) 0 args + S f)%nat by lia.
-    rewrite good_list_xlsb by exact HG. cbn [app]. rewrite xlsb_run_S by len_tac.
+    replace (S (fold_right (fun a acc => ntokb a + acc) 0 args) + f)%nat
+      with (fold_right (fun a acc => ntokb a + acc) 0 args + S f)%nat by lia.
+    rewrite good_list_xlsb by (first [exact HG | lia]). cbn [app]. rewrite xlsb_run_S by len_tac.
     destruct tables_ftab as (_ & EA & EL).
     rewrite <- (map_length rend args) in Hn.
     rewrite (@xlsb_step_func show_f64 env _ k i (map rend args) rest st buf (fname i)).
@@ -1363,11 +1564,11 @@ Proof.
     apply N.ltb_lt in Hcnt, Hi.
     assert (HG : Forall good_xlsb args).
     { apply forallb_Forall in Hargs. rewrite Forall_forall in *. intros a Hin. apply H; auto. }
-    unfold encode_xlsb. cbn [ntok encode]. fold encode_xlsb.
+    unfold encode_xlsb. cbn [ntokb encode]. fold encode_xlsb.
     rewrite <- !app_assoc.
-    replace (S (fold_right (fun a acc => ntok a + acc) 0 args) + f)%nat
-      with (fold_right (fun a acc => ntok a + acc) 0 args + S f)%nat by lia.
-    rewrite good_list_xlsb by exact HG. cbn [app]. rewrite xlsb_run_S by len_tac.
+    replace (S (fold_right (fun a acc => ntokb a + acc) 0 args) + f)%nat
+      with (fold_right (fun a acc => ntokb a + acc) 0 args + S f)%nat by lia.
+    rewrite good_list_xlsb by (first [exact HG | lia]). cbn [app]. rewrite xlsb_run_S by len_tac.
     unfold user_fn_ok in Husr. destruct (i =? 255) eqn:E255.
     + (* tab 0x00FF: the first parameter is the function name *)
       apply N.eqb_eq in E255. subst i.
@@ -1384,63 +1585,208 @@ Proof.
       * change FTAB_LEN_REF with 485 in Hi. lia.
       * lia.
   - (* ESum *)
-    specialize (IHe Hwf). unfold encode_xlsb. cbn [ntok encode]. fold encode_xlsb.
-    rewrite <- app_assoc. replace (S (ntok e) + f)%nat with (ntok e + S f)%nat by lia.
-    rewrite IHe. cbn [app]. rewrite xlsb_run_S by len_tac. unfold xlsb_step, xlsb_attr.
+    specialize (IHe Hwf). unfold encode_xlsb. cbn [ntokb encode]. fold encode_xlsb.
+    rewrite <- app_assoc. replace (S (ntokb e) + f)%nat with (ntokb e + S f)%nat by lia.
+    rewrite IHe by lia. cbn [app]. rewrite xlsb_run_S by len_tac. unfold xlsb_step, xlsb_attr.
     cbn [byte_at skipn obind drop]. unfold arm_attrsum. cbn [fst snd].
     rewrite split_off_app. cbn [obind fst snd]. unfold render_xlsb. cbn [render].
     rewrite <- ?app_assoc. reflexivity.
   - (* EAttrSkip *)
     apply andb_prop in Hwf. destruct Hwf as [Hwf Ha]. apply andb_prop in Hwf. destruct Hwf as [He Hw].
-    specialize (IHe Ha). unfold encode_xlsb. cbn [ntok encode]. fold encode_xlsb.
+    specialize (IHe Ha). unfold encode_xlsb. cbn [ntokb encode]. fold encode_xlsb.
     cbn [app]. rewrite <- app_assoc. cbn [Nat.add]. rewrite xlsb_run_S by len_tac.
-    rewrite xlsb_step_attrskip by exact He. cbn [obind fst snd]. rewrite IHe.
+    rewrite xlsb_step_attrskip by exact He. cbn [obind fst snd]. rewrite IHe by lia.
     unfold render_xlsb. cbn [render]. reflexivity.
   - (* EAttrPost *)
     apply andb_prop in Hwf. destruct Hwf as [Hwf Ha]. apply andb_prop in Hwf. destruct Hwf as [He Hw].
-    specialize (IHe Ha). unfold encode_xlsb. cbn [ntok encode]. fold encode_xlsb.
-    rewrite <- app_assoc. replace (S (ntok e0) + f)%nat with (ntok e0 + S f)%nat by lia.
-    rewrite IHe. cbn [app]. rewrite xlsb_run_S by len_tac.
+    specialize (IHe Ha). unfold encode_xlsb. cbn [ntokb encode]. fold encode_xlsb.
+    rewrite <- app_assoc. replace (S (ntokb e0) + f)%nat with (ntokb e0 + S f)%nat by lia.
+    rewrite IHe by lia. cbn [app]. rewrite xlsb_run_S by len_tac.
     rewrite xlsb_step_attrskip by exact He. cbn [obind fst snd].
     unfold render_xlsb. cbn [render]. reflexivity.
   - (* EAttrChoose *)
     apply andb_prop in Hwf. destruct Hwf as [Hwf Ha]. apply andb_prop in Hwf. destruct Hwf as [Hwf Ho].
     apply andb_prop in Hwf. destruct Hwf as [H1 H2]. apply N.leb_le in H1, H2.
-    specialize (IHe Ha). unfold encode_xlsb. cbn [ntok encode]. fold encode_xlsb.
+    specialize (IHe Ha). unfold encode_xlsb. cbn [ntokb encode]. fold encode_xlsb.
     cbn [app]. rewrite <- !app_assoc. cbn [Nat.add]. rewrite xlsb_run_S by len_tac.
-    rewrite xlsb_step_attrchoose by assumption. cbn [obind fst snd]. rewrite IHe.
+    rewrite xlsb_step_attrchoose by assumption. cbn [obind fst snd]. rewrite IHe by lia.
     unfold render_xlsb. cbn [render]. reflexivity.
   - (* ERefN: only with a base cell *)
     apply andb_prop in Hwf. destruct Hwf as [Hbase Ha].
     destruct (be_base env) as [base|] eqn:Eb; [|discriminate].
-    unfold encode_xlsb. cbn [ntok Nat.add encode app]. rewrite <- app_assoc.
+    unfold encode_xlsb. cbn [ntokb Nat.add encode app]. rewrite <- app_assoc.
     rewrite xlsb_run_S by len_tac; rewrite (@xlsb_step_refn show_f64 env _ k a base) by assumption.
     unfold render_xlsb. cbn [render obind fst snd]. rewrite Eb. reflexivity.
   - (* EAreaN *)
     apply andb_prop in Hwf. destruct Hwf as [Hwf Hb]. apply andb_prop in Hwf. destruct Hwf as [Hbase Ha].
     destruct (be_base env) as [base|] eqn:Eb; [|discriminate].
-    unfold encode_xlsb. cbn [ntok Nat.add encode app]. rewrite <- !app_assoc.
+    unfold encode_xlsb. cbn [ntokb Nat.add encode app]. rewrite <- !app_assoc.
     rewrite xlsb_run_S by len_tac; rewrite (@xlsb_step_arean show_f64 env _ k a b base) by assumption.
     unfold render_xlsb. cbn [render obind fst snd]. rewrite Eb. reflexivity.
+  - (* EMem *)
+    apply andb_prop in Hwf. destruct Hwf as [Hwf Ha]. apply andb_prop in Hwf. destruct Hwf as [Hw Hc].
+    apply N.ltb_lt in Hc. specialize (IHe Ha). unfold encode_xlsb. cbn [encode]. fold encode_xlsb.
+    cbn [app]. rewrite <- !app_assoc.
+    destruct m.
+    + (* PtgMemArea: skipped, the expression follows *)
+      cbn [ntokb need mdepth Nat.add] in *. rewrite xlsb_run_S by (destruct k; cbn [mem_ptg cls_ptg mem_head xlsb_expected le app length];
+                          rewrite ?app_length; cbn [length]; lia).
+      rewrite xlsb_step_mem_skip by discriminate. cbn [obind fst snd]. rewrite IHe by lia.
+      unfold render_xlsb. cbn [render]. reflexivity.
+    + cbn [ntokb need mdepth Nat.add] in *. rewrite xlsb_run_S by (destruct k; cbn [mem_ptg cls_ptg mem_head xlsb_expected le app length];
+                          rewrite ?app_length; cbn [length]; lia).
+      rewrite xlsb_step_mem_skip by discriminate. cbn [obind fst snd]. rewrite IHe by lia.
+      unfold render_xlsb. cbn [render]. reflexivity.
+    + cbn [ntokb need mdepth Nat.add] in *. rewrite xlsb_run_S by (destruct k; cbn [mem_ptg cls_ptg mem_head xlsb_expected le app length];
+                          rewrite ?app_length; cbn [length]; lia).
+      rewrite xlsb_step_mem_skip by discriminate. cbn [obind fst snd]. rewrite IHe by lia.
+      unfold render_xlsb. cbn [render]. reflexivity.
+    + (* PtgMemFunc: the expression is parsed by a nested call, one level deeper *)
+      cbn [ntokb need mdepth Nat.add] in *.
+      rewrite xlsb_run_S by (destruct k; cbn [mem_ptg cls_ptg mem_head xlsb_expected le app length];
+                             rewrite ?app_length; cbn [length]; lia).
+      assert (Hdd : (MAX_FORMULA_DEPTH <=? d)%nat = false) by (apply Nat.leb_gt; unfold MAX_FORMULA_DEPTH; lia).
+      destruct (encode_xlsb_cons e) as (b0 & t0 & Eenc).
+      assert (Hsub : (if (MAX_FORMULA_DEPTH <=? d)%nat then Err E_DEPTH else
+                      match encode_xlsb e with
+                      | [] => Ok []
+                      | _ => do s' <- xlsb_run show_f64 env f (S d) (encode_xlsb e) ([], []); xlsb_finish s'
+                      end) = Ok (rend e)).
+      { rewrite Hdd, Eenc. rewrite <- Eenc.
+        specialize (IHe (S d) (f - ntokb e)%nat [] [] []).
+        rewrite app_nil_r in IHe. replace (ntokb e + (f - ntokb e))%nat with f in IHe by lia.
+        rewrite IHe by lia.
+        destruct (f - ntokb e)%nat as [|f'] eqn:Ef; [lia|].
+        cbn [xlsb_run obind xlsb_finish fst snd length app]. reflexivity. }
+      rewrite (@xlsb_step_memfunc show_f64 env _ k (encode_xlsb e) rest (st, buf) (rend e) Hc Hsub). cbn [obind fst snd].
+      unfold render_xlsb. cbn [render]. reflexivity.
+  - (* ERefErr *)
+    apply Nat.eqb_eq in Hwf. unfold encode_xlsb. cbn [ntokb Nat.add encode app].
+    rewrite xlsb_run_S by (destruct k; cbn [cls_ptg xlsb_expected]; rewrite app_length; lia).
+    rewrite xlsb_step_referr by exact Hwf. reflexivity.
+  - (* EAreaErr *)
+    apply Nat.eqb_eq in Hwf. unfold encode_xlsb. cbn [ntokb Nat.add encode app].
+    rewrite xlsb_run_S by (destruct k; cbn [cls_ptg xlsb_expected]; rewrite app_length; lia).
+    rewrite xlsb_step_areaerr by exact Hwf. reflexivity.
+  - (* ERefErr3d *)
+    apply andb_prop in Hwf. destruct Hwf as [Hwf Hj]. apply andb_prop in Hwf. destruct Hwf as [Hix Hsh].
+    apply Nat.eqb_eq in Hj. apply N.ltb_lt in Hix, Hsh.
+    unfold encode_xlsb. cbn [ntokb Nat.add encode app]. rewrite <- !app_assoc.
+    rewrite xlsb_run_S by (destruct k; cbn [cls_ptg xlsb_expected]; rewrite !app_length, le_length; lia).
+    rewrite xlsb_step_referr3d by assumption. reflexivity.
+  - (* EAreaErr3d *)
+    apply andb_prop in Hwf. destruct Hwf as [Hwf Hj]. apply andb_prop in Hwf. destruct Hwf as [Hix Hsh].
+    apply Nat.eqb_eq in Hj. apply N.ltb_lt in Hix, Hsh.
+    unfold encode_xlsb. cbn [ntokb Nat.add encode app]. rewrite <- !app_assoc.
+    rewrite xlsb_run_S by (destruct k; cbn [cls_ptg xlsb_expected]; rewrite !app_length, le_length; lia).
+    rewrite xlsb_step_areaerr3d by assumption. reflexivity.
 Qed.
 
 End XlsbMain.
+
+(* the decoder's own fuel S (length rgce) covers the loop and the nested calls *)
+Lemma ntokb_bounds : forall e,
+  (1 <= ntokb e)%nat /\ (ntokb e <= length (encode_xlsb e))%nat /\
+  (ntokb e + need e <= S (length (encode_xlsb e)))%nat.
+Proof.
+  unfold encode_xlsb.
+  assert (L : forall args, Forall (fun e => (1 <= ntokb e)%nat /\ (ntokb e <= length (encode 4 enc_str_xlsb e))%nat /\
+                                             (ntokb e + need e <= S (length (encode 4 enc_str_xlsb e)))%nat) args ->
+              (fold_right (fun a acc => ntokb a + acc) 0 args <= length (flat_map (encode 4 enc_str_xlsb) args))%nat /\
+              (fold_right (fun a acc => ntokb a + acc) 0 args + fold_right (fun a acc => Nat.max (need a) acc) 0 args
+               <= S (length (flat_map (encode 4 enc_str_xlsb) args)))%nat).
+  { induction 1 as [|a args (H1 & H2 & H3) _ (I1 & I2)]; [cbn; lia|].
+    cbn [fold_right flat_map]. rewrite app_length. lia. }
+  induction e using expr_ind'; cbn [ntokb need encode]; rewrite ?app_length; cbn [length];
+    try lia;
+    try (destruct IHe as (H1 & H2 & H3); lia);
+    try (destruct IHe1 as (H1 & H2 & H3); destruct IHe2 as (G1 & G2 & G3); lia);
+    try (destruct (L args H) as [I1 I2]; lia).
+  - (* EMem *)
+    destruct IHe as (H1 & H2 & H3).
+    destruct m; cbn [ntokb need mem_head]; rewrite ?app_length, ?le_length; cbn [length]; lia.
+Qed.
 
 Theorem rpn_correct_xlsb : forall show_f64 env e,
   wf_xlsb env e = true ->
   xlsb_parse_formula show_f64 env (encode_xlsb e) = Ok (render_xlsb show_f64 env e).
 Proof.
-  intros show_f64 env e Hwf. unfold xlsb_parse_formula.
-  pose proof (ntok_le_length 4 enc_str_xlsb e) as Hn. fold encode_xlsb in Hn.
-  assert (Hpos : (1 <= ntok e)%nat) by (destruct e; cbn [ntok]; lia).
-  destruct (encode_xlsb e) as [|b0 bs] eqn:Eenc; [cbn [length] in Hn; lia|]. rewrite <- Eenc in *.
-  pose proof (@rpn_step_xlsb show_f64 env 0%nat e Hwf) as HG. unfold good_xlsb in HG.
-  specialize (HG (S (length (encode_xlsb e)) - ntok e)%nat [] [] []).
+  intros show_f64 env e Hwf. unfold wf_xlsb in Hwf. apply andb_prop in Hwf. destruct Hwf as [Hwf Hd].
+  apply Nat.leb_le in Hd. unfold xlsb_parse_formula.
+  destruct (ntokb_bounds e) as (H1 & H2 & H3).
+  destruct (encode_xlsb e) as [|b0 bs] eqn:Eenc; [cbn [length] in H2; lia|]. rewrite <- Eenc in *.
+  pose proof (@rpn_step_xlsb show_f64 env e Hwf) as HG. unfold good_xlsb in HG.
+  specialize (HG 0%nat (S (length (encode_xlsb e)) - ntokb e)%nat [] [] []).
   rewrite app_nil_r in HG.
-  replace (ntok e + (S (length (encode_xlsb e)) - ntok e))%nat with (S (length (encode_xlsb e))) in HG by lia.
-  rewrite HG.
-  destruct (S (length (encode_xlsb e)) - ntok e)%nat as [|f'] eqn:Ef; [lia|].
+  replace (ntokb e + (S (length (encode_xlsb e)) - ntokb e))%nat with (S (length (encode_xlsb e))) in HG by lia.
+  rewrite HG by lia.
+  destruct (S (length (encode_xlsb e)) - ntokb e)%nat as [|f'] eqn:Ef; [lia|].
   cbn [xlsb_run obind fst snd app xlsb_finish]. reflexivity.
+Qed.
+
+(* ================================================================== supporting links *)
+(* the text of an expression depends on the sheet lookup only at the XTIs it goes through *)
+Lemma render_sheet_ext : forall show_f64 s1 s2 nm tr e,
+  (forall ix, In ix (ixtis e) -> s1 ix = s2 ix) ->
+  render show_f64 s1 nm tr e = render show_f64 s2 nm tr e.
+Proof.
+  intros show_f64 s1 s2 nm tr.
+  assert (L : forall args, Forall (fun e => (forall ix, In ix (ixtis e) -> s1 ix = s2 ix) ->
+                                    render show_f64 s1 nm tr e = render show_f64 s2 nm tr e) args ->
+              (forall ix, In ix (flat_map ixtis args) -> s1 ix = s2 ix) ->
+              map (render show_f64 s1 nm tr) args = map (render show_f64 s2 nm tr) args).
+  { induction 1 as [|a args Ha _ IH]; intros Hix; [reflexivity|].
+    cbn [map]. f_equal.
+    - apply Ha. intros ix Hin. apply Hix. cbn [flat_map]. apply in_or_app. left. exact Hin.
+    - apply IH. intros ix Hin. apply Hix. cbn [flat_map]. apply in_or_app. right. exact Hin. }
+  induction e using expr_ind'; cbn [render ixtis]; intros Hix; try reflexivity;
+    try (rewrite (Hix ix) by (left; reflexivity); reflexivity);
+    try (rewrite IHe by exact Hix; reflexivity).
+  - (* EBin *)
+    rewrite IHe1, IHe2; [reflexivity| |]; intros ix Hin; apply Hix; apply in_or_app; auto.
+  - (* EFunc *) rewrite (L args H Hix). reflexivity.
+  - (* EFuncVar *) rewrite (L args H Hix). reflexivity.
+Qed.
+
+Lemma known_extern_false : forall links xtis e ix x,
+  known_extern links xtis e = false -> In ix (ixtis e) -> nthN xtis ix = Some x ->
+  xti_local links x = true.
+Proof.
+  intros links xtis e ix x Hk Hin Hx. unfold known_extern in Hk.
+  destruct (xti_local links x) eqn:E; [reflexivity|].
+  assert (existsb (fun ix => match nthN xtis ix with Some x => negb (xti_local links x) | None => false end)
+            (ixtis e) = true).
+  { apply existsb_exists. exists ix. split; [exact Hin|]. rewrite Hx, E. reflexivity. }
+  congruence.
+Qed.
+
+Lemma sheet_through_link_local : forall links tab_at local x,
+  xti_local links x = true -> sheet_through_link links tab_at local x = local.
+Proof.
+  intros links tab_at local x H. unfold xti_local in H. unfold sheet_through_link.
+  destruct (nthN links (fst (fst x))) as [[| | |tabs]|]; cbn in H; try discriminate; reflexivity.
+Qed.
+
+(* outside the known class the full spec (through the supporting links) is the text the decoder writes *)
+Lemma render_xls_links_eq : forall show_f64 links env e,
+  known_extern links (xe_xtis env) e = false ->
+  render_xls_links show_f64 links env e = render_xls show_f64 env e.
+Proof.
+  intros show_f64 links env e Hk. unfold render_xls_links, render_xls.
+  apply render_sheet_ext. intros ix Hin. unfold spec_sheet_xls_links.
+  destruct (nthN (xe_xtis env) ix) as [x|] eqn:Ex.
+  - apply sheet_through_link_local. eapply known_extern_false; eauto.
+  - unfold spec_sheet_xls. rewrite Ex. reflexivity.
+Qed.
+
+Theorem rpn_correct_links_xls : forall show_f64 links env e,
+  wf_xls env e = true -> N.of_nat (length (encode_xls e)) < 65536 ->
+  known_C14 links (xe_xtis env) e = None ->
+  xls_parse_formula show_f64 env (frame_xls (encode_xls e)) = Ok (render_xls_links show_f64 links env e).
+Proof.
+  intros show_f64 links env e Hwf Hlen Hk. unfold known_C14 in Hk.
+  destruct (known_extern links (xe_xtis env) e) eqn:E; [discriminate|].
+  rewrite render_xls_links_eq by exact E. apply rpn_correct_xls; assumption.
 Qed.
 
 (* ================================================================== CHOOSE, user-defined functions *)
